@@ -228,6 +228,32 @@ func genC01(c *Ctx) {
 			c.checkBoolean(t, expr, A)
 		}
 	}
+	// (h) long allowed lists (more than 8, 16, 32 entries) holding several variants of the terms' ids: X, X+, X WITH e
+	lfill := []string{"Zlib", "0BSD", "Unlicense", "WTFPL", "X11", "NCSA", "PostgreSQL", "Beerware", "Artistic-2.0", "BSL-1.0", "CC0-1.0", "EPL-2.0",
+		"OFL-1.1", "Python-2.0", "Ruby", "Vim", "curl", "LicenseRef-q", "AFL-3.0", "CECILL-2.1", "EUPL-1.2", "Libpng", "IJG", "HPND", "Sleepycat", "W3C", "Xnet", "ZPL-2.1"}
+	for _, x := range []string{"MIT", "ISC", "BSD-3-Clause", "Apache-2.0", "GPL-2.0-only", "MPL-2.0"} {
+		variants := []string{x, x + "+", x + " WITH Classpath-exception-2.0", x + " WITH Bison-exception-2.2", x + "+ WITH Classpath-exception-2.0"}
+		for _, n := range []int{9, 17, 40} {
+			for rep := 0; rep < 4; rep++ {
+				var A []string
+				for _, v := range variants {
+					if c.rng.Intn(3) != 0 {
+						A = append(A, v)
+					}
+				}
+				for len(A) < n {
+					A = append(A, c.rng.Pick(lfill))
+				}
+				A = c.rng.Shuffle(A)
+				c.count("variant_lists")
+				for _, v := range variants {
+					c.checkBoolean(leaf(v), v, A)
+				}
+				t := or(and(leaf(variants[0]), leaf(variants[2])), leaf(variants[3]))
+				c.checkBoolean(t, t.render(0, c.rng), A)
+			}
+		}
+	}
 	// (g) twins: two sub-expressions over the same three terms, every pair, under AND / OR and under a fresh term
 	tw := twinTrees([]string{"MIT", "ISC", "Apache-2.0"})
 	subs := subsets([]string{"MIT", "ISC", "Apache-2.0"})
